@@ -94,6 +94,28 @@ func cmdCheck(prop, tier string, keep bool) int {
 	if tier == "thorough" && violations == 0 && os.Getenv("GCV_REPO") == "" {
 		extra["selftest_must_fail_corpus"] = runSelftest(prop)
 	}
+	defect := false
+	if tier == "thorough" {
+		// bounded validation of the trusted base (never counted as proof): operator models and
+		// math axioms against the real Go operations, plus a canary that must be reported
+		rep := runModelValidation(seedFromEnv())
+		os.Setenv("GCV_VALIDATE_CANARY", "1")
+		canary := runModelValidation(seedFromEnv())
+		os.Unsetenv("GCV_VALIDATE_CANARY")
+		canaryOK := false
+		for _, f := range canary.Failures {
+			if strings.Contains(f, "CANARY") {
+				canaryOK = true
+			}
+		}
+		extra["bounded_checks"] = map[string]interface{}{"model_validation": rep, "canary_detected": canaryOK}
+		fmt.Printf("%s: model validation (bounded, not proof): %d operator cases agree with Go, %d skipped as inexact/overflow (A1/A2), axiom instances %v, canary detected=%v\n",
+			prop, rep.Cases-len(rep.Failures), rep.Skipped, rep.Axioms, canaryOK)
+		if rep.Error != "" || len(rep.Failures) > 0 || !canaryOK {
+			defect = true
+			fmt.Printf("CHECK-DEFECT %s: model validation failed (%s %v): gcv's semantics disagree with Go; nothing this run reports should be trusted\n", prop, rep.Error, rep.Failures)
+		}
+	}
 	if err := writeEvidence(verifDir, pr, results, violations, known, undecided, extra); err != nil {
 		fmt.Fprintln(os.Stderr, "evidence:", err)
 		return 2
@@ -107,6 +129,9 @@ func cmdCheck(prop, tier string, keep bool) int {
 	fmt.Printf("%s: %d named obligations discharged (%d path instances), %d violations, %.1fs\n", prop, n, len(pr.Obls), violations, time.Since(start).Seconds())
 	if violations > 0 {
 		return 1
+	}
+	if defect {
+		return 2
 	}
 	return 0
 }
